@@ -5,6 +5,8 @@
    model side (code bit 1): for the plain bitvector, RawVector, IntVector and the mask functions the same call
    is replayed on the model in the build's mode and on the build's select path and must end the same way
    (same value, same panic class, or OOB <-> 9).
+   CRawSet: set_bit with any offset (inside, in the unused bits of the last word, beyond the words) on a copy,
+   then BitVector::from of the copy and its iterators: the model keeps the state after a refused call.
    Memory-mapped views (CMapped / CMGet): real files made of library-serialized values are mapped and every view
    type is requested at every offset; for a view `new` returned the harness records map_offset, map_len, the claimed
    data length, whether the claimed range lies inside the mapping, and the outcome of touching its first and last
@@ -82,6 +84,9 @@ Inductive case :=
 (* structures without a model here (sparse, run-length, wavelet matrix, builders, loaded copies):
    outcome class per call, 0 = returned, k = panic class *)
 | COther (kind : N) (classes : list N)
+(* RawVector (len, words): set_bit(i, v) on a copy with outcome o, then BitVector::from of that same copy (unchanged
+   when the call panicked) and iterator calls on it *)
+| CRawSet (path : N) (dbg : bool) (len : N) (words : list N) (i : N) (v : bool) (o : ires unit) (calls : list bcall)
 (* one mapped file, one view type, every requested offset *)
 | CMapped (dbg : bool) (file : list N) (ty : vtype) (views : list (N * mobs))
 (* IntVectorMapper (opt: inside a MappedOption) at offset [off] of the file whose width element is above 64,
@@ -328,6 +333,15 @@ Definition check (c : case) : N :=
       code (forallb (model_icall (mkiv len width (mkraw rawlen words))) calls) (forallb spec_icall calls)
   | CMasks calls => code (forallb model_mask calls) (forallb spec_mask calls)
   | COther _ classes => code true (forallb (fun k => negb (k =? 9)) classes)
+  | CRawSet path dbg len words i v o calls =>
+      let sp := sp_of path in let m := mode_of dbg in
+      let st := raw_set_bit (mkraw len words) i v in
+      let r' := match st with Ok r' => r' | _ => mkraw len words end in
+      (* spec side: an offset at or beyond the length is refused (the invariant the unchecked scans rely on), and
+         nothing ends in the hook *)
+      code (res_agree unit_eqb (runit st) o && forallb (model_bcall sp m (bv_from_raw r')) calls)
+           ((if len <=? i then match o with IPanic _ => true | IOk _ => false end else true)
+            && not9 o && forallb spec_bcall calls)
   | CMapped dbg file ty views =>
       code (forallb (model_mview (mode_of dbg) file ty) views) (forallb (spec_mview file ty) views)
   | CMGet dbg file opt off gets =>
@@ -348,6 +362,10 @@ Definition explain (c : case) : list bool :=
   | CIV dbg len width rawlen words calls => map (model_icall (mkiv len width (mkraw rawlen words))) calls
   | CMasks calls => map model_mask calls
   | COther _ classes => map (fun k => negb (k =? 9)) classes
+  | CRawSet path dbg len words i v o calls =>
+      let st := raw_set_bit (mkraw len words) i v in
+      let r' := match st with Ok r' => r' | _ => mkraw len words end in
+      res_agree unit_eqb (runit st) o :: map (model_bcall (sp_of path) (mode_of dbg) (bv_from_raw r')) calls
   | CMapped dbg file ty views =>
       map (fun o => model_mview (mode_of dbg) file ty o && spec_mview file ty o) views
   | CMGet dbg file opt off gets =>
